@@ -70,13 +70,17 @@ def h_concat(axis, k, md_cfg, via):
     sig = dict(axis=axis, k=k, via=via)
     if via == 'method':
         arg = ops[1] if (k == 2 and flag('single-not-list')) else ops[1:]
-        e = raises(lambda: ops[0].concat(arg, axis=axis))
-        res = None if e is not None else ops[0].concat(arg, axis=axis)
+        res, e = call(lambda: ops[0].concat(arg, axis=axis))
+        if isinstance(arg, list) and (len(arg) != k - 1 or any(x is not y for x, y in zip(arg, ops[1:]))):
+            fail('concat:argument-list-modified', f"{len(arg)} entries after the call, {k - 1} before", **sig)
+            return
     else:
         import sx.env as env
         biom = env.module('biom')
-        e = raises(lambda: biom.concat(list(ops), axis=axis))
-        res = None if e is not None else biom.concat(list(ops), axis=axis)
+        arg = list(ops)
+        res, e = call(lambda: biom.concat(arg, axis=axis))
+        if len(arg) != k:
+            fail('concat:argument-list-modified', 'wrapper', **sig)
     if e is not None:
         fail('concat:raised', f"{type(e).__name__}: {e}"[:200], **sig)
         return
